@@ -276,12 +276,36 @@ func sortedInts(a []int) []int {
 }
 
 type cfgJSON struct {
-	N int `json:"seats"`
+	N      int  `json:"seats"`
+	Beside bool `json:"second_table_in_process,omitempty"` // a second seat manager is created and driven along otherScript after NewSeatManager and after every operation
 }
 
 func cfgOf(n int) json.RawMessage {
 	b, _ := json.Marshal(cfgJSON{N: n})
 	return b
+}
+
+func (c *Check) cfg() json.RawMessage {
+	b, _ := json.Marshal(cfgJSON{N: c.N, Beside: c.Beside})
+	return b
+}
+
+// otherScript is what the second table of a "beside" exploration does (4 seats; refusals are its
+// own business): people sit down, the button moves, somebody sits out, leaves, comes back.
+var otherScript = []Op{{"Join", 0}, {"Seat", 0}, {"Join", 2}, {"Seat", 2}, {"Join", 3}, {"Next", 0}, {"Seat", 3}, {"Next", 0},
+	{"Reserve", 0}, {"Next", 0}, {"Leave", 2}, {"Join", 1}, {"Seat", 1}, {"Next", 0}, {"Join", -1}, {"Next", 0}}
+
+// otherTable creates the second table and plays its script; the calling goroutine is locked to its thread.
+func otherTable() {
+	m := sm.NewSeatManager(4)
+	for _, op := range otherScript {
+		exec(m, op, vrt.NewChooser(nil))
+		func() {
+			defer func() { recover() }() // the second table is environment: what its queries do is not judged here
+			m.GetSeats()
+			m.GetPlayableSeats()
+		}()
+	}
 }
 
 var _ = vrt.Choose
